@@ -106,3 +106,162 @@ Proof.
     + apply dlogic_eqb_neq in E. rewrite (Hne k E). cbn [app].
       apply IH; [exact Hnd' | exact Hne|]. intros Hn. apply Hnot. intros [H|H]; [contradiction | exact (Hn H)].
 Qed.
+
+Lemma filter_nil {A} (p : A -> bool) l : (forall x, In x l -> p x = false) -> filter p l = [].
+Proof.
+  induction l as [|x l IH]; intros H; [reflexivity|]. cbn [filter].
+  rewrite (H x) by (now left). apply IH. intros y Hy. apply H. now right.
+Qed.
+
+Lemma run_dlogic_In L og ng pop inrw d :
+  In d (run_dlogic L og ng pop inrw) ->
+  exists inrw' mta y, In y (base_diff og pop inrw' mta ng) /\ (d = y \/ d = aff_to_moved_n y).
+Proof.
+  unfold run_dlogic. destruct L.
+  - intros H. exists inrw, true, d. auto.
+  - intros H. exists inrw, false, d. auto.
+  - destruct inrw.
+    + intros H. exists true, false, d. auto.
+    + destruct (all_affected _); [intros []|]. intros H. unfold aff_to_moved in H.
+      apply in_map_iff in H as (y & Ey & Hy). exists true, false, y. auto.
+Qed.
+
+Definition OO (t : atree) : Prop :=
+  forall ao pop inrw, awf ao -> awf (akids t) -> compat ao (akids t) -> pop_ok pop ao ->
+  order_ok (akids t) (diff_t t ao pop inrw) = true.
+
+Section OrderLevel.
+  Variables (ao nk : aforest) (pop : op).
+  Hypothesis Hwo : awf ao.
+  Hypothesis Hwn : awf nk.
+  Hypothesis Hc : compat ao nk.
+  Hypothesis Hpop : pop_ok pop ao.
+
+  Let NDo := awf_NoDup ao Hwo.
+  Let NDn := awf_NoDup nk Hwn.
+
+  (* everything known about an entry produced by scan_new for a row of new *)
+  Lemma scan_shape L inrw' r m c d :
+    In (r, m, c) nk -> mi_dlogic m = L -> scan_rel (filter (inL L) ao) pop inrw' (r, m, c) d ->
+    alookup r nk = Some (m, c) /\ awf (akids c) /\
+    exists o oldk, d = DN o r m (diff_t c oldk o inrw') /\ o <> Removed /\
+                   awf oldk /\ compat oldk (akids c) /\ pop_ok o oldk /\
+                   ((o = Added /\ alookup r ao = None) \/
+                    ((o = pop \/ o = Moved) /\ exists so, alookup r ao = Some (m, so) /\ oldk = akids so)).
+  Proof.
+    intros Hk HL Hrel.
+    split; [apply alookup_In; assumption|].
+    split; [eapply awf_In; [exact Hwn | exact Hk]|].
+    unfold scan_rel, arow, ami, asub in Hrel. cbn [fst snd] in Hrel.
+    rewrite (old_group_lookup ao nk Hwo Hc L r m c Hk HL) in Hrel.
+    destruct (alookup r ao) as [[mo so]|] eqn:Elo.
+    - destruct Hrel as (o & Ho & Ed).
+      destruct (compat_In ao nk Hc r m c mo so Hk Elo) as [Em Hcs]. subst mo.
+      assert (Ho' : o = Affected \/ o = Moved).
+      { destruct Ho as [Ho|Ho]; [|auto]. subst o.
+        destruct Hpop as [Hp|[Hp|Hp]]; [auto | auto | rewrite Hp in Elo; discriminate]. }
+      exists o, (akids so). split; [exact Ed|]. split; [destruct Ho'; subst o; discriminate|].
+      split; [eapply awf_In; [exact Hwo | apply alookup_Some_In; exact Elo]|].
+      split; [exact Hcs|].
+      split; [destruct Ho' as [E|E]; subst o; [left | right; left]; reflexivity|].
+      right. split; [exact Ho|]. exists so. auto.
+    - exists Added, []. split; [exact Hrel|]. split; [discriminate|].
+      split; [constructor|]. split; [apply compat_nil_l|]. split; [right; right; reflexivity|].
+      left. auto.
+  Qed.
+
+  Hypothesis IH : Forall (fun k => OO (asub k)) nk.
+
+  Lemma entry_order L inrw' mta y :
+    In y (base_diff (filter (inL L) ao) pop inrw' mta (cks (filter (inL L) nk))) ->
+    order_ok_n nk y = true.
+  Proof.
+    intros Hy. apply base_diff_In in Hy as [(k & Hk & Hrel)|(k & Hk & Hn & E)].
+    - apply filter_In in Hk as [Hk HL]. destruct k as [[r m] c].
+      unfold inL, ami in HL. cbn [fst snd] in HL. apply dlogic_eqb_eq in HL.
+      destruct (scan_shape L inrw' r m c y Hk HL Hrel)
+        as (Eln & Hwc & o & oldk & Ed & _ & Hwk & Hck & Hpk & _).
+      subst y. rewrite order_ok_n_eq, Eln.
+      rewrite Forall_forall in IH. apply (IH _ Hk); assumption.
+    - apply filter_In in Hk as [Hk HL]. destruct k as [[r m] c]. subst y.
+      unfold inL, ami in HL. cbn [fst snd] in HL. apply dlogic_eqb_eq in HL.
+      unfold mkrem, arow, ami, asub. cbn [fst snd]. rewrite order_ok_n_eq.
+      rewrite (new_group_absent ao nk Hwo Hc L r m c Hk HL Hn). reflexivity.
+  Qed.
+
+  Lemma is_ordered_dl_of r : is_ordered_in nk r = true -> dl_of ao nk r = DOrdered.
+  Proof.
+    unfold is_ordered_in, dl_in, dl_of. destruct (alookup r nk) as [[mn sn]|] eqn:El; [|discriminate].
+    intros H. assert (E : mi_dlogic mn = DOrdered) by (destruct (mi_dlogic mn); try discriminate; reflexivity).
+    destruct (alookup r ao) as [[mo so]|] eqn:Elo; [|exact E].
+    apply alookup_Some_In in El.
+    destruct (compat_In ao nk Hc r mn sn mo so El Elo) as [Em _]. subst mo. exact E.
+  Qed.
+
+  Hypothesis IHL : Forall (fun k => LL (asub k)) nk.
+
+  Lemma level_order inrw : order_ok nk (diff_level ao (cks nk) pop inrw) = true.
+  Proof.
+    rewrite diff_level_unfold.
+    set (keys := uniq_dl _ []).
+    set (G := fun L => run_dlogic L (filter (inL L) ao) (cks (filter (inL L) nk)) pop inrw).
+    assert (HG : forall L, group_ok ao nk L (G L)) by (intros L; apply run_group_ok; assumption).
+    assert (Hdl : forall L d, In d (G L) -> dl_of ao nk (d_row d) = L).
+    { intros L d Hd. destruct (HG L) as (_ & _ & G3 & _). destruct (G3 d Hd) as [H|H].
+      - apply dl_of_old; assumption.
+      - apply dl_of_new; assumption. }
+    apply order_ok_iff. split.
+    - rewrite filter_flat_map.
+      rewrite (flat_map_single (fun L => filter (ordp nk) (G L)) DOrdered keys).
+      + subst G. cbn [run_dlogic]. unfold base_diff. rewrite interleave_filter.
+        * apply scan_rows.
+        * intros d Hd. apply scan_In in Hd as (k & Hk & Hrel).
+          apply filter_In in Hk as [Hk HL]. destruct k as [[r m] c].
+          unfold inL, ami in HL. cbn [fst snd] in HL. apply dlogic_eqb_eq in HL.
+          destruct (scan_shape DOrdered inrw r m c d Hk HL Hrel)
+            as (Eln & _ & o & oldk & Ed & Ho & _).
+          subst d. unfold ordp, is_ordered_in, dl_in. cbn [d_row d_op]. rewrite Eln, HL.
+          destruct o; try reflexivity. congruence.
+        * intros d Hd. rewrite removed_rows_spec in Hd. apply in_map_iff in Hd as (k & E & _).
+          subst d. unfold ordp, mkrem. cbn [d_op op_eqb negb]. apply andb_false_r.
+      + apply uniq_dl_NoDup.
+      + intros L HL. apply filter_nil. intros d Hd.
+        destruct (ordp nk d) eqn:E; [|reflexivity]. exfalso. apply HL.
+        unfold ordp in E. apply andb_true_iff in E as [E _].
+        apply is_ordered_dl_of in E. rewrite (Hdl L d Hd) in E. exact E.
+      + intros Hn. destruct (G DOrdered) as [|d rest] eqn:EG; [reflexivity|]. exfalso. apply Hn.
+        destruct (HG DOrdered) as (_ & _ & G3 & _). rewrite EG in G3.
+        specialize (G3 d (or_introl eq_refl)). apply uniq_dl_In0. apply in_or_app.
+        destruct G3 as [H|H]; [left | right]; unfold arows in H;
+          apply in_map_iff in H as (k & _ & Hk); apply filter_In in Hk as [Hk HL];
+          unfold inL in HL; apply dlogic_eqb_eq in HL; rewrite <- HL;
+          apply (in_map (fun k => mi_dlogic (ami k))); exact Hk.
+    - intros x Hx. apply in_flat_map in Hx as (L & _ & Hx).
+      apply run_dlogic_In in Hx as (inrw' & mta & y & Hy & [E|E]); subst x.
+      + eapply entry_order. exact Hy.
+      + apply order_aff_to_moved. eapply entry_order. exact Hy.
+  Qed.
+End OrderLevel.
+
+Theorem diff_t_order : forall t, OO t.
+Proof.
+  induction t as [nk IH] using atree_ind2. unfold OO. cbn [akids].
+  intros ao pop inrw Hwo Hwn Hc Hpop. rewrite diff_t_unfold.
+  apply level_order; try assumption.
+  apply Forall_forall. intros k _. apply diff_t_lossless.
+Qed.
+
+Section TopOrder.
+  Variable rmatch : string -> string -> option (list string).
+  Theorem diff_order_ok_lib : forall rs old new, wf old -> wf new ->
+    order_ok (annot_f rmatch rs new) (make_diff rmatch rs old new) = true.
+  Proof.
+    intros rs old new Ho Hn. unfold make_diff, raw_diff. apply order_mark_all.
+    change (annot_f rmatch rs new) with (akids (annot rmatch rs (T new))).
+    apply diff_t_order.
+    - apply annot_awf. exact Ho.
+    - apply (annot_awf rmatch new rs Hn).
+    - apply (annot_compat rmatch new rs old).
+    - left. reflexivity.
+  Qed.
+End TopOrder.
